@@ -11,6 +11,8 @@ for _p in sorted(glob.glob(os.path.join(_d, "C*.py"))):
     _s = importlib.util.spec_from_file_location("spec_" + _pid, _p)
     _m = importlib.util.module_from_spec(_s)
     _s.loader.exec_module(_m)
+    if not os.path.exists(os.path.join(os.path.dirname(_d), "..", "coq", "Props", _pid + ".v")):
+        continue  # not claimed until its theorems exist
     if getattr(_m, "NOT_APPLICABLE", None):
         NOT_APPLICABLE[_pid] = _m.NOT_APPLICABLE
         continue
